@@ -442,7 +442,8 @@ trigonometric_operators = (sin, cos, tan)
 
 multiple_output_operators = {modf: 2, frexp: 2, divmod_: 2}
 
-LARGE_INPUT = {4: 16777217, 8: 9007199254740993}
+# smallest positive integer that float16/32/64 cannot represent exactly (2**p + 1)
+LARGE_INPUT = {2: 2049, 4: 16777217, 8: 9007199254740993}
 
 
 class unyt_array(np.ndarray):
@@ -737,7 +738,7 @@ class unyt_array(np.ndarray):
                 dsize = values.dtype.itemsize
                 new_dtype = "f" + str(dsize)
                 large = LARGE_INPUT.get(dsize, 0)
-                if large and np.any(np.abs(values) > large):
+                if large and np.any(np.abs(values) >= large):
                     warnings.warn(
                         f"Overflow encountered while converting to units '{new_units}'",
                         RuntimeWarning,
@@ -917,7 +918,7 @@ class unyt_array(np.ndarray):
             dsize = max(2, self.dtype.itemsize)
             if self.dtype.kind in ("u", "i"):
                 large = LARGE_INPUT.get(dsize, 0)
-                if large and np.any(np.abs(self.d) > large):
+                if large and np.any(np.abs(self.d) >= large):
                     warnings.warn(
                         f"Overflow encountered while converting to units '{new_units}'",
                         RuntimeWarning,
